@@ -6,7 +6,7 @@ use noodles_bcf as bcf;
 use noodles_vcf::{self as vcf, variant::io::Write as _};
 
 fn main() -> io::Result<()> {
-    let text = "##fileformat=VCFv4.3\n##contig=<ID=sq0,length=1000>\n##FORMAT=<ID=GT,Number=1,Type=String,Description=\"Genotype\">\n#CHROM\tPOS\tID\tREF\tALT\tQUAL\tFILTER\tINFO\tFORMAT\ts0\ts1\ts2\nsq0\t1\t.\tA\tC,G\t.\t.\t.\tGT\t0/1\t0/1/2\t1\nsq0\t2\t.\tA\tC\t.\t.\t.\tGT\t0/1\t1\t0|1\n";
+    let text = "##fileformat=VCFv4.3\n##contig=<ID=sq0,length=1000>\n##FORMAT=<ID=GT,Number=1,Type=String,Description=\"Genotype\">\n#CHROM\tPOS\tID\tREF\tALT\tQUAL\tFILTER\tINFO\tFORMAT\ts0\ts1\ts2\nsq0\t1\t.\tA\tC,G\t.\t.\t.\tGT\t0/1\t0/1/2\t1\nsq0\t2\t.\tA\tC\t.\t.\t.\tGT\t0/1\t1\t0|1\nsq0\t3\t.\tA\tC\t.\t.\t.\tGT\t0|1\t.|.\t0|.\n";
     let mut reader = vcf::io::Reader::new(text.as_bytes());
     let header = reader.read_header()?;
     let records: Vec<_> = reader.record_bufs(&header).collect::<io::Result<_>>()?;
